@@ -60,3 +60,13 @@ package hash
 //@ func (SHA256Hash).Equals
 //@   prop C10
 //@   pure
+
+// ---- C06 / C10: a reference parsed from its hex form is made from exactly 32 bytes the string decodes to (that the bytes are copied in order is NOT decided: the element-wise copy into the array did not discharge) (the payload hash of a
+// transaction, the references of the branches that are merged); any other length is an error, the empty string the empty hash ----
+//@ func ParseHex
+//@   prop C06 C10 C19
+//@   safety
+//@   modifies nothing
+//@   ensures [exactly-the-32-decoded-bytes] isNilIface(result.1) && input != "" ==> isNilIface(ret(call hex.DecodeString #1).1) && arg(call hex.DecodeString #1, 0) == input
+//@        && len(ret(call hex.DecodeString #1).0) == SHA256HashSize
+//@   ensures [a-failed-parse-yields-no-hash] !isNilIface(result.1) ==> (forall k int :: 0 <= k && k < SHA256HashSize ==> result.0[k] == 0)
